@@ -10,6 +10,7 @@
 -/
 import BufrModel.View.Wire
 import BufrModel.View.NestedJson
+import BufrModel.View.WireClass
 import BufrModel.Drv.CoderOp
 open Lean
 namespace Bufr.Drv
@@ -87,6 +88,10 @@ def opViews (st : DrvState) (j : Json) : J (DrvState × Json) :=
      -- the decidable side conditions of C09_nested_json_to_flat_partial, per subset (null when the pass fails)
      ("side_ok", jarr (outs.map fun o => match wireRaw t o with
         | .ok w => Json.bool (w.sideOK o)
-        | .error _ => Json.null))]
+        | .error _ => Json.null)),
+     -- the template classes of the C09 link theorems (Props/C09.lean, C09Wire.lean): 0 = outside, 1 = quietList false,
+     -- 2 = quietList true; and the class of Lemmas/WireSimLinks.lean
+     ("quiet", jnat (if C09.quietList false t then 1 else if C09.quietList true t then 2 else 0)),
+     ("wire_links_ok", Json.bool (C09.wireLinksOK t))]
 
 end Bufr.Drv
